@@ -48,6 +48,9 @@ def err(t, T, signs=None):
     if k == "neg":
         e, s = err(t[1], T, signs)
         return e, {"+": "-", "-": "+"}.get(s, s)
+    if k == "mul" and t[1] == t[2]:
+        e1, _ = err(t[1], T, signs)
+        return (None if e1 is None else 2 * e1 + 1), "+"
     if k in ("mul", "div"):
         (e1, s1), (e2, s2) = err(t[1], T, signs), err(t[2], T, signs)
         if s1 == "0":
@@ -102,3 +105,12 @@ def err(t, T, signs=None):
 def ulps(bound_u):
     """u-units -> ulps (1 ulp >= 1 u relative... a relative error of b*u is at most b ulps, at least b/2)."""
     return float(bound_u)
+
+
+def subst(t, mapping):
+    """Replace sub-terms (keys of mapping) by other terms."""
+    if t in mapping:
+        return mapping[t]
+    if isinstance(t, tuple) and t and t[0] not in ("leaf", "c", "pi"):
+        return tuple(subst(x, mapping) if isinstance(x, tuple) else x for x in t)
+    return t
